@@ -197,6 +197,10 @@ def mutate(data: bytes, spec: list, other: bytes = b"") -> bytes:
         return zip_sub(data, spec[1], spec[2], spec[3], spec[4] if len(spec) > 4 else 1)
     if op == "zipenc":                                 # valid ZIP whose members carry the "encrypted" flag bit
         return zip_flag_encrypted(build_archive("zip", [(n, data) for n in spec[1]]))
+    if op == "olerec":                                 # one 8-byte record header inside an OLE stream, edited in place
+        return ole_record_edit(data, spec[1], spec[2], spec[3], spec[4])
+    if op == "run":                                    # 0.5 - 1 MB of almost-matching prefixes for a pre-scan regex
+        return near_match_run(spec[1], spec[2])
     if op == "append":                                 # stray bytes after the end of the file
         r = random.Random(spec[2])
         return data + bytes(r.randrange(256) for _ in range(spec[1]))
@@ -1108,3 +1112,123 @@ def ole_cycle(data: bytes, how: str, rs: int) -> bytes:
 
 OLE_CYCLES = ["fat_self", "fat_back", "fat_prev", "dir_left_self", "dir_right_self", "dir_child_self", "dir_child_root",
               "dir_chain_self", "minifat_self"]
+
+
+# ------------------------------------------- record-aware edits for the hand-written record / signature scanners
+LEN_BOUNDARY = [0, 1, 0x7FFFFFFF, 0x80000000, 0xFFFFFFF8, 0xFFFFFFFF, 0xFFFFFFF0, 0x7FFFFFF8]
+_BLIP = set(range(0xF01A, 0xF020)) | {0xF029}
+
+
+def _record_headers(st: bytes):
+    """offsets of 8-byte <ver/inst:H type:H len:I> headers: the record tree walked from offset 0 (containers are
+    stepped into), plus every OfficeArt-looking header (type 0xF0xx, plausible length) found by scanning."""
+    offs, o, n = [], 0, len(st)
+    while o + 8 <= n and len(offs) < 4000:
+        vi, ty, ln = struct.unpack_from("<HHI", st, o)
+        if ln > n - o - 8:
+            break
+        offs.append(o)
+        o = o + 8 if (vi & 0x0F) == 0x0F else o + 8 + ln
+    scan = []
+    i = st.find(b"\xf0", 3)
+    while i >= 0 and len(scan) < 2000:
+        o = i - 3
+        vi, ty, ln = struct.unpack_from("<HHI", st, o) if o + 8 <= n else (0, 0, 0)
+        if 0xF000 <= ty <= 0xF1FF and 0 < ln <= n - o - 8:
+            scan.append(o)
+        i = st.find(b"\xf0", i + 1)
+    blips = [o for o in scan if struct.unpack_from("<H", st, o + 2)[0] in _BLIP]
+    return offs, scan, blips
+
+
+def ole_record_edit(data: bytes, which: str, pick: str, k: int, how) -> bytes:
+    """pick: 'tree' | 'art' | 'blip' (which list of record headers), k: index into it; how: 'type' (an unrecognised but
+    well-formed record: Mac PICT blip / unknown atom, same length), 'sig' (first byte of the picture payload flipped),
+    or an int = new value of the 32-bit length field (signed / unsigned boundaries)."""
+    pk = _pick_stream(data, which)
+    if not pk:
+        return data
+    _, m = pk
+    st = bytearray(_ole_read(data, m))
+    tree, art, blips = _record_headers(bytes(st))
+    lst = {"tree": tree, "art": art, "blip": blips}[pick] or tree or art
+    if not lst:
+        return data
+    o = lst[k % len(lst)]
+    vi, ty, ln = struct.unpack_from("<HHI", st, o)
+    if how == "type":
+        struct.pack_into("<H", st, o + 2, 0xF01C if ty in _BLIP and ty != 0xF01C else (0xF01F if ty == 0xF01C else 0x0BAD))
+    elif how == "sig":
+        hdr = 33 if ((vi >> 4) & 0xFFF) in (0x6E1, 0x46B) else 17
+        if o + 8 + hdr < len(st):
+            st[o + 8 + hdr] ^= 0x5A
+    else:
+        struct.pack_into("<I", st, o + 4, int(how) & 0xFFFFFFFF)
+    return _ole_write(data, m, bytes(st))
+
+
+def near_match_run(name: str, kb: int) -> bytes:
+    """long runs of ALMOST-matching prefixes for the regexes / scanners that look at the input before parsing it."""
+    n = kb * 1024
+    rep = lambda unit: (unit * (n // len(unit) + 1))[:n]
+    if name == "html_meta":                 # <meta ... never closed, no charset anywhere
+        return b"<html><head><title>t</title>" + rep(b"<meta ") + b"</head><body><p>text</p></body></html>"
+    if name == "html_meta_attr":
+        return b"<html><head>" + rep(b"<meta name=x content=y ") + b"</head><body>x</body></html>"
+    if name == "html_meta_chars":
+        return b"<html><head>" + rep(b"<meta charse") + b"</head><body>x</body></html>"
+    if name == "html_lt":
+        return b"<html><body>" + rep(b"<") + b"</body></html>"
+    if name == "html_amp":
+        return b"<html><body><p>" + rep(b"&#") + b"</p></body></html>"
+    if name == "html_comment":
+        return b"<html><body>" + rep(b"<!-") + b"</body></html>"
+    if name == "mhtml_meta":
+        return (b"MIME-Version: 1.0\nContent-Type: multipart/related; boundary=\"b\"\n\n--b\nContent-Type: text/html\n\n"
+                + near_match_run("html_meta", kb) + b"\n--b--\n")
+    if name == "mhtml_htmlstart":
+        return b"MIME-Version: 1.0\nContent-Type: text/html\n\n" + rep(b"<html ") + b"\n"
+    if name == "mhtml_cte":
+        return b"MIME-Version: 1.0\nContent-Type: text/html\n" + rep(b"Content-Transfer-Encoding:\n") + b"\n<html><body>x</body></html>"
+    if name == "mbox_from":
+        return b"From a@b Mon Jan  1 00:00:00 2024\nSubject: s\n\n" + rep(b"From x\n") + b"\n"
+    if name == "mbox_from_long":
+        return b"From a@b Mon Jan  1 00:00:00 2024\nSubject: s\n\nFrom " + rep(b"word 123 ") + b"\n"
+    if name == "rtf_quote":
+        return b"{\\rtf1\\ansi " + rep(b"\\'") + b"}"
+    if name == "rtf_fonttbl":
+        return b"{\\rtf1\\ansi " + rep(b"{\\fonttbl") + b"}"
+    if name == "rtf_pict":
+        return b"{\\rtf1\\ansi " + rep(b"{\\pict") + b"}"
+    if name == "rtf_info":
+        return b"{\\rtf1\\ansi " + rep(b"{\\info{\\title ") + b"}"
+    if name == "rtf_field":
+        return b"{\\rtf1\\ansi " + rep(b"{\\field{\\*\\fldinst HYPERLINK ") + b"}"
+    if name == "eml_fold":
+        return b"Subject: s\n" + rep(b" x\n") + b"\nbody\n"
+    if name == "plain_bom":
+        return rep(b"\xef\xbb")
+    raise ValueError(name)
+
+
+# NOT among the inputs: mhtml_htmlstart (a run of "<html " start tags inside an MHTML part). Profiled on /repo: the time
+# (100 KB -> 43 s) is spent in Python's html.parser (check_for_whole_start_tag / locatestarttagend on unfinished start
+# tags), i.e. a cost of the standard library like html_lt, not of the library's own scanners; replacing the library's
+# raw-HTML regex by a linear search changed nothing measurable. rtf_info / rtf_field are inputs again (KF-C01-04 / 05).
+RUNS_EXCLUDED = ["mhtml_htmlstart", "rtf_info", "rtf_field"]      # rtf_*: witnesses of KF-C01-04 / -05 (own jobs);
+# mhtml_htmlstart: see above (standard-library cost)
+RUN_KB = {"html_lt": 200}                                          # html.parser is slow on "<" runs (stdlib cost): smaller
+RUNS = {"html_meta": "html", "html_meta_attr": "html", "html_meta_chars": "html", "html_lt": "html", "html_amp": "html",
+        "html_comment": "html", "mhtml_meta": "mhtml", "mhtml_htmlstart": "mhtml", "mhtml_cte": "mhtml", "mbox_from": "mbox",
+        "mbox_from_long": "mbox", "rtf_quote": "rtf", "rtf_fonttbl": "rtf", "rtf_pict": "rtf", "rtf_info": "rtf", "rtf_field": "rtf",
+        "eml_fold": "eml", "plain_bom": "plain"}
+for _k in RUNS_EXCLUDED:
+    RUNS.pop(_k, None)
+
+
+def rtf_run_evidence(data: bytes) -> dict:
+    """KF-C01-04 / -05 domain evidence: how many `{\\info` groups / HYPERLINK field instructions the RTF holds
+    (rtf_extractor searches its _RE_INFO* / field regexes from every such start: quadratic in their number)."""
+    is_rtf = data[:64].lstrip().startswith(b"{\\rtf")
+    return {"rtf": bool(is_rtf), "rtfinfo": min(data.count(b"{\\info"), 2 ** 30) if is_rtf else 0,
+            "rtffield": min(data.count(b"{\\field{\\*\\fldinst"), 2 ** 30) if is_rtf else 0}
